@@ -24,7 +24,10 @@ SPECFUNCS = {
                                 '0 < unwrap(it.transfer_id) and unwrap(it.transfer_id) < s._tx_next_id and '
                                 'contains(s._tx_map, unwrap(it.transfer_id)) and '
                                 'lookup(s._tx_map, unwrap(it.transfer_id)) == it and '
-                                'not contains(ghost.tx_finished, unwrap(it.transfer_id))'),
+                                'not contains(ghost.tx_finished, unwrap(it.transfer_id)) and '
+                                '0 <= it.ack_length and it.ack_length <= U64 and '
+                                'implies(it.total_length is not None, 0 <= unwrap(it.total_length) and '
+                                '        unwrap(it.total_length) < 4611686018427387904)'),
     'rx_item_ok': (['s', 'it'], 'it.transfer_id is not None and it.file is not None'),
     'in_pend': (['s', 'it'], 'contains(s._tx_pend_start, it)'),
     # --- the idle predicate, restated from the property text (C18/C09) -----------------------------
@@ -60,6 +63,9 @@ TX_INV = [
                     'not contains(self._tx_pend_ack, unwrap(self._tx_tmp)))', ['C18']),
     ('tx_ack_items', 'forall(r, "Ref[BundleItem]", implies(contains(self._tx_pend_ack, r), '
                      'tx_item_ok(self, r) and not in_pend(self, r)))', ['C18']),
+    ('tx_map_ids', 'forall(k, "Int", implies(contains(self._tx_map, k), eqv(lookup(self._tx_map, k).transfer_id, k) and '
+                   '0 < k and k < self._tx_next_id and 0 <= lookup(self._tx_map, k).ack_length and '
+                   'lookup(self._tx_map, k).ack_length <= U64))', ['C18']),
     # the D-Bus send queue (keys of _tx_map) is exactly: queued and not yet finished
     ('tx_queue_view', 'dom(self._tx_map) == ghost.tx_live', ['C18']),
     ('tx_live_unfinished', 'forall(x, "Int", implies(contains(ghost.tx_live, x), not contains(ghost.tx_finished, x)))',
@@ -112,6 +118,13 @@ INVARIANTS = {'ContactHandler': [
                           'contains(self._rx_bundles, lookup(self._rx_map, k)) and '
                           'lookup(self._rx_map, k).file is not None))', ['C18']),
     ('rx_tmp_not_done', 'implies(self._rx_tmp is not None, not contains(self._rx_bundles, unwrap(self._rx_tmp)))'),
+    ('rx_map_ids', 'forall(k, "Int", implies(contains(self._rx_map, k), eqv(lookup(self._rx_map, k).transfer_id, k)))',
+     ['C18']),
+    ('rx_done_distinct', 'no_dup(self._rx_bundles)', ['C18']),
+    ('rx_done_pend_files_distinct', 'forall(i, 0, length(self._rx_bundles), forall(j, 0, length(self._tx_pend_start), '
+                                    'not eqv(self._rx_bundles[i].file, self._tx_pend_start[j].file)))', ['C01']),
+    ('rx_done_tx_files_distinct', 'implies(self._tx_tmp is not None, forall(i, 0, length(self._rx_bundles), '
+                                  'not eqv(self._rx_bundles[i].file, self._tx_tmp.file)))', ['C01']),
     # --- numbers kept for the D-Bus parameter view are wire values (unsigned) -------------------------
     ('sess_params_nonneg', 'forall(k, "Str", implies(union_is(lookup(self._sess_parameters, k), "int"), '
                            'union_get(lookup(self._sess_parameters, k), "int") >= 0))', ['C18']),
@@ -160,7 +173,7 @@ FUNCS = {
                                  'f.pos == old(f.pos))) and '
                                  'forall(it, "Ref[BundleItem]", implies(existed(it), '
                                  'eqv(it.transfer_id, old(it.transfer_id)) and eqv(it.file, old(it.file)) and '
-                                 'eqv(it.total_length, old(it.total_length))))', [])],
+                                 'eqv(it.total_length, old(it.total_length)) and it.ack_length == old(it.ack_length)))', [])],
     ),
     'tcpcl.session:ContactHandler.is_sess_idle': dict(
         returns='Bool', props=['C18', 'C09'],
